@@ -10,6 +10,9 @@ import itertools
 
 REGISTRY = {}      # prop -> list of items
 
+# properties whose thorough-only instances all discharge within seconds: the quick tier runs them too
+QUICK_RUNS_ALL_INSTANCES = {"C03", "C08", "C16"}
+
 
 class RContract:
     kind = 'R'
@@ -28,7 +31,7 @@ class RContract:
 
     def obligations(self, tier):
         insts = list(self.instances)
-        if tier == 'thorough':
+        if tier == 'thorough' or self.prop in QUICK_RUNS_ALL_INSTANCES:
             insts += [i for i in self.thorough_instances if i not in insts]
         for inst in insts:
             yield f"{self.prop}.{self.name}.{inst_name(inst)}", inst
